@@ -203,7 +203,7 @@ PLANS["C12"] = {
         dict(name="commit", consts=consts(files=("f", "g"), alphabet=PARTIAL, steps=5, commits=3, uid=4, lines=3),
              invariants=[], budget=120, variants=[("plain", "unicode"), ("plain", "spaces"), ("crlf", "subdir")],
              twins=GITCFG_TWINS),
-        dict(name="rewrite", consts=consts(alphabet=REWRITE + ("amend",), steps=9, commits=7, uid=5, lines=5,
+        dict(name="rewrite", consts=consts(alphabet=REWRITE + ("amend",), steps=9, commits=7, uid=5, lines=4,
                                            sessions=("S1",)), invariants=[], budget=150,
              variants=[("plain", "unicode"), ("plain", "subdir")], twins=GITCFG_TWINS, per_tag=1),
     ],
@@ -220,9 +220,12 @@ PLANS["C12"] = {
 PLANS["C13"] = {
     "clauses": TWIN_EQ,
     "quick": [
+        dict(name="conflicts", consts=consts(alphabet=CONFLICT, steps=9, commits=6, uid=4, lines=4, sessions=("S1",)),
+             invariants=[], budget=60, variants=RENDERS[:2], twins=HOOKSMODE, per_tag=1,
+             require_action=("CherryPickR", "CherryPickManyR", "RebaseR")),
         dict(name="commit", consts=consts(alphabet=PARTIAL, steps=5, commits=3, lines=3), invariants=[], budget=120,
              variants=RENDERS[:3], twins=HOOKSMODE),
-        dict(name="rewrite", consts=consts(alphabet=REWRITE + ("amend",), steps=9, commits=7, uid=5, lines=5,
+        dict(name="rewrite", consts=consts(alphabet=REWRITE + ("amend",), steps=9, commits=7, uid=5, lines=4,
                                            sessions=("S1",)), invariants=[], budget=160, variants=RENDERS[:2],
              twins=HOOKSMODE, per_tag=1),
         dict(name="destructive", consts=consts(alphabet=DESTRUCTIVE, steps=6, commits=3, lines=3), invariants=[],
@@ -245,13 +248,17 @@ PICKMANY = ("edit_ins", "ckpt", "commit_all", "branch", "switch", "cherry_many")
 PLANS["C15"] = {
     "clauses": TWIN,
     "quick": [
+        dict(name="conflicts", consts=consts(alphabet=CONFLICT, steps=9, commits=6, uid=4, lines=4, sessions=("S1",)),
+             invariants=[], budget=60, variants=RENDERS[:2], twins=NOFAST, per_tag=1,
+             require_action=("CherryPickR", "CherryPickManyR", "RebaseR")),
         dict(name="pickmany", consts=consts(alphabet=PICKMANY, steps=11, commits=7, uid=5, lines=5, sessions=("S1",)),
-             invariants=[], budget=140, variants=RENDERS[:2], twins=NOFAST, per_tag=1),
+             invariants=[], budget=150, variants=RENDERS[:2], twins=NOFAST, per_tag=2,
+             require_action=("CherryPickMany",)),
         dict(name="interactive", consts=consts(files=("f", "g"), alphabet=IREBASE, steps=9, commits=8, uid=5, lines=4,
-                                               sessions=("S1",)), invariants=[], budget=160, variants=RENDERS[:2],
+                                               sessions=("S1",)), invariants=[], budget=100, variants=RENDERS[:2],
              twins=NOFAST, per_tag=1),
-        dict(name="rewrite", consts=consts(alphabet=REWRITE, steps=10, commits=7, uid=5, lines=5, sessions=("S1",)),
-             invariants=[], budget=300, variants=RENDERS[:3], twins=NOFAST, per_tag=1),
+        dict(name="rewrite", consts=consts(alphabet=REWRITE, steps=9, commits=7, uid=5, lines=5, sessions=("S1",)),
+             invariants=[], budget=180, variants=RENDERS[:3], twins=NOFAST, per_tag=1),
     ],
     "thorough": [
         dict(name="rewrite", consts=consts(alphabet=REWRITE + ("edit_del",), steps=10, commits=7, uid=6, lines=5,
@@ -299,7 +306,7 @@ PLANS["C09"] = {
         dict(name="blocks", consts=consts(alphabet=("edit_ins", "edit_del", "ckpt", "commit_all"),
                                           steps=7, commits=4, uid=5, lines=5, sessions=("S1",)), invariants=[],
              budget=240, variants=[("plain", "plain"), ("tabs", "dashy")], per_tag=2, extra={"blamefmt": True}),
-        dict(name="rewrite", consts=consts(alphabet=REWRITE + ("amend",), steps=9, commits=7, uid=5, lines=5,
+        dict(name="rewrite", consts=consts(alphabet=REWRITE + ("amend",), steps=9, commits=7, uid=5, lines=4,
                                            sessions=("S1",)), invariants=[], budget=100,
              variants=[("plain", "plain"), ("plain", "quoted")], per_tag=1, extra={"blamefmt": True}),
     ],
@@ -317,7 +324,7 @@ PLANS["C19"] = {
     "quick": [
         dict(name="partial", consts=consts(files=("f", "g"), alphabet=PARTIAL, steps=5, commits=3, uid=5, lines=3),
              invariants=[], budget=200, variants=RENDERS[:3], extra={"stats": True}),
-        dict(name="rewrite", consts=consts(alphabet=REWRITE + ("amend",), steps=9, commits=7, uid=5, lines=5,
+        dict(name="rewrite", consts=consts(alphabet=REWRITE + ("amend",), steps=9, commits=7, uid=5, lines=4,
                                            sessions=("S1",)), invariants=[], budget=100, variants=RENDERS[:2],
              per_tag=1, extra={"stats": True}),
         dict(name="unborn", consts=consts(alphabet=EDIT_COMMIT, steps=5, init="unborn", uid=4), invariants=[],
@@ -422,7 +429,7 @@ PLANS["C06"] = {
         dict(name="porcelain", consts=consts(files=("f", "g"), alphabet=C06_ALPHA, steps=5, commits=3, uid=4, lines=3),
              invariants=[], budget=220, variants=[("plain", "plain"), ("plain", "spaces"), ("crlf", "unicode")],
              twins=PLAINTWIN, per_tag=1, extra={"uv": True}),
-        dict(name="rewrite", consts=consts(alphabet=REWRITE + ("amend", "readonly_more"), steps=8, commits=7,
+        dict(name="rewrite", consts=consts(alphabet=REWRITE + ("amend", "readonly_more"), steps=7, commits=7,
                                            uid=4, lines=4, sessions=("S1",)), invariants=[], budget=140,
              variants=[("plain", "plain"), ("plain", "dashy")], twins=PLAINTWIN, per_tag=1, extra={"uv": True}),
     ],
